@@ -143,7 +143,8 @@ func (w *world) knownClass(a Action) string {
 		// K4: v1alpha1 request naming the workload of another, blue-green Rollout of the namespace.
 		if hasWL {
 			for _, o := range w.st.inNamespace(a.NS) {
-				if ov := readView(o.Tree); o.Name != a.Name && ov.WL == wl && ov.Style == "bluegreen" {
+				// same workload = same (group, kind, name); the version segment of apiVersion does not matter
+				if ov := readView(o.Tree); o.Name != a.Name && workloadIdentity(a.NS, ov.WL) == workloadIdentity(a.NS, wl) && ov.Style == "bluegreen" {
 					return "v1alpha1-conflict-check-blind-to-bluegreen"
 				}
 			}
@@ -466,10 +467,10 @@ func (w *world) checkOnePerWorkload(a Action) {
 			}
 		}
 		switch {
-		case !sameRef:
-			sig = "two-rollouts-one-workload-apiversion-spelling"
 		case a.Version == vAlpha && bg:
 			sig = "v1alpha1-conflict-check-blind-to-bluegreen"
+		case !sameRef:
+			sig = "two-rollouts-one-workload-apiversion-spelling"
 		}
 		var names []string
 		for _, e := range g {
